@@ -532,15 +532,23 @@ impl Transports {
     }
 
     /// Returns the transport behind the key. Sets the state to used if its not
-    pub fn set_used(&self, tp_key: &TpKey) -> TpHandle {
+    ///
+    /// The last handle may have been dropped without the transport's task having noticed it yet.
+    /// In that case a new reference count is started and its [`DropNotifier`] is returned, it
+    /// replaces the one the task currently holds.
+    pub fn set_used(&self, tp_key: &TpKey) -> (TpHandle, Option<DropNotifier>) {
         let mut transports = self.transports.lock();
         let managed = transports
             .get_mut(tp_key)
             .expect("invalid tp_key to set_unused passed");
 
-        managed
-            .try_get()
-            .expect("set_used failed to retrieve TpHandle")
+        if let Some(transport) = managed.try_get() {
+            return (transport, None);
+        }
+
+        let (transport, notifier) = managed.renew();
+
+        (transport, Some(notifier))
     }
 
     #[cfg(feature = "ezk-verif")]
